@@ -35,8 +35,10 @@ Definition bmul_sum (P S : arr) : option (nat -> R) :=
   else if Nat.eqb (nc S) 1 then Some (fun r => sum (nc P) (fun c => dat P r c * dat S r 0%nat))
   else None.
 
-(* get_I_chunk_like(A, i, bs, shift = k) for an n x n operator: (chunk, shifted_chunk, ghost start column of chunk) *)
-Definition get_I_chunk_like (n i bs : nat) (k : Z) : option (arr * arr * nat) :=
+(* get_I_chunk_like(A, i, bs, shift = k) for an n x n operator: (chunk, shifted_chunk, ghost start column of chunk).
+   fx = false: the pinned code (the shifted chunk always has bs columns);  fx = true: the repaired code (the shifted chunk is
+   cut to the width of the chunk: padded[:, k:k+chunk.shape[-1]] resp. padded[:, bs-chunk.shape[-1]:bs]) *)
+Definition get_I_chunk_like (fx : bool) (n i bs : nat) (k : Z) : option (arr * arr * nat) :=
   let Id := mkarr n n eye in                                  (* I_like(A)[:, a:b].to_dense() = columns a..b-1 of the identity *)
   if (k =? 0)%Z then
     let C := slice_cols Id i (i + bs) in Some (C, C, Nat.min i n)
@@ -45,14 +47,16 @@ Definition get_I_chunk_like (n i bs : nat) (k : Z) : option (arr * arr * nat) :=
     let C := slice_cols Id i (i + bs + k') in
     match pad_left n (bs + k') C with
     | None => None
-    | Some P => Some (slice_cols C 0 bs, slice_cols P k' (k' + bs), Nat.min i n)
+    | Some P => let Ch := slice_cols C 0 bs in
+                Some (Ch, slice_cols P k' (k' + (if fx then nc Ch else bs)), Nat.min i n)
     end
   else
     let kk := Z.to_nat k in
     let C := slice_cols Id (i - kk) (i + bs) in              (* max(i - k, 0) *)
     match pad_right n (bs + kk) C with
     | None => None
-    | Some P => Some (last_cols C bs, slice_cols P 0 bs, (Nat.min (i - kk) n + (nc C - Nat.min bs (nc C)))%nat)
+    | Some P => let Ch := last_cols C bs in
+                Some (Ch, slice_cols P (if fx then bs - nc Ch else 0) bs, (Nat.min (i - kk) n + (nc C - Nat.min bs (nc C)))%nat)
     end.
 
 (* range(0, n, bs) *)
@@ -61,9 +65,9 @@ Fixpoint chunk_starts (fuel i bs n : nat) : list nat :=
 Definition is_some {A} (o : option A) : bool := match o with Some _ => true | None => false end.
 
 (* exact_diag(A, k, bs): the argument bs is overwritten by min(B, n), B = 100 in the source *)
-Definition exact_diag (B n : nat) (mulA : nat -> arr -> arr) (k : Z) : option (list R) :=
+Definition exact_diag (fx : bool) (B n : nat) (mulA : nat -> arr -> arr) (k : Z) : option (list R) :=
   let bs := Nat.min B n in
-  let contribs := map (fun i => match get_I_chunk_like n i bs k with
+  let contribs := map (fun i => match get_I_chunk_like fx n i bs k with
                                 | None => None
                                 | Some (C, Sh, a0) => bmul_sum (mulA a0 C) Sh
                                 end) (chunk_starts (S n) 0 bs n) in
